@@ -53,6 +53,7 @@ func main() {
 		"a valid string is one spelled by the independent reference Bech32 encoder (refage), itself validated against the CCTV vectors at start-up",
 		"checksum algebra: the same HRP+payload re-checksummed for the listed other remainders (Bech32m, 0, 2, 3, 0x3fffffff, every single-bit change of 1, six other ways of feeding the HRP into the checksum), and every 1-4 position substitution pattern that moves a valid string onto such a remainder (found by a meet-in-the-middle search over pair syndromes; counts per target under coverage.algebraic_search); patterns inside the HRP are not searched",
 		"exhaustive multi-substitution stage: all double substitutions over the full substitute alphabet (printable ASCII, non-ASCII/control set, fullwidth) within the last 8 characters, within the first 4 data characters and across the separator, out-of-alphabet at a checksum position x in-alphabet anywhere after the separator, and all triples of the last 3 characters, on base strings with l, q and p among their last six characters (listed in coverage); doubles elsewhere are sampled only",
+		"arguments-left-alone oracle: byte-slice arguments are sub-slices of sentinel-filled arenas (payload lengths 0-40; spare capacity 0, 1, 3, 4, 5, 64, rest of arena), strings are substrings of larger strings; the arena must be unchanged, adjacent payloads and prefix-then-whole records must print and parse back exactly, returned slices must not be shared or change later, repeated calls must agree",
 		"plugin names: exhaustive to length 2 (quick) / 3 (thorough) over the allowed set plus / \\ : space; payloads 0-64 bytes",
 	}
 	r.MinEvals, r.MinDistinct = 200000, 3000
@@ -83,6 +84,7 @@ func main() {
 	jobs = append(jobs, jobsRespell(bases)...)
 	jobs = append(jobs, jobsAlgebraicSubst(bases)...)
 	jobs = append(jobs, jobsTail()...)
+	jobs = append(jobs, jobsPurity()...)
 	r.Set("jobs", len(jobs))
 	mon.Par(len(jobs), func(i int) {
 		b := newBatch()
@@ -102,6 +104,7 @@ func main() {
 	}
 	finishAlgebra()
 	finishTail()
+	finishPurity()
 	flushViolations()
 	agg.publish(r)
 	ex := false
